@@ -2,7 +2,9 @@ package main
 
 import (
 	"bytes"
+	"fmt"
 	"math/big"
+	"os"
 	"sort"
 
 	sdkmath "cosmossdk.io/math"
@@ -191,12 +193,36 @@ func (st *ShareState) SlashRedelegationsAsImplementedAmb(groups []*redelGroup, f
 			x = rmul(rquo(D, K), t)
 		}
 		diff := rabs(rsub(s, x))
-		// the module computes x with an 18-digit quotient: absolute error up to t*10^-18 (and the same again for K)
-		errX := rmul(t, big.NewRat(4, 1_000_000_000_000_000_000))
+		// the module computes x = round18(D/K') x t with K' = round18(vs/S) x T: the quotient D/K' is off by up to
+		// 10^-18 absolute (x t), and K' carries the 10^-18 error of vs/S amplified by T, i.e. a relative error of
+		// 10^-18 x T/K that x inherits. (Found by the thorough tier: with 100 shares per token after a 0.99 take
+		// rate the bound t x 4e-18 was two orders of magnitude too small and the model decided "whole position"
+		// where the module, within its rounding error, did not.)
+		errX := rmul(radd(t, rmul(x, radd(big.NewRat(1, 1), rquo(st.T[g.Denom], K)))), big.NewRat(4, 1_000_000_000_000_000_000))
 		if rabs(rsub(diff, ratCent)).Cmp(errX) <= 0 || (diff.Cmp(ratCent) >= 0 && diff.Cmp(radd(ratCent, errX)) <= 0) || rabs(rsub(x, s)).Cmp(errX) <= 0 && diff.Cmp(ratCent) >= 0 {
 			amb[g.Dst+"|"+g.Denom] = true
 		}
+		// the slash covers everything the position still holds (reported balance floor(value + 0.01)): the whole
+		// position goes, without converting tokens to shares
+		whole := false
+		if D.Sign() > 0 {
+			v := rmul(K, rquo(s, D))
+			vr := radd(v, ratCent)
+			errV := rmul(radd(K, rmul(v, radd(big.NewRat(1, 1), rquo(st.T[g.Denom], K)))), big.NewRat(4, 1_000_000_000_000_000_000))
+			if t.Cmp(new(big.Rat).SetInt(rfloor(vr))) >= 0 {
+				whole = true
+			}
+			// the decision flips where value + 0.01 crosses t or t + 1: within the module's rounding error of either
+			// boundary both outcomes are legitimate
+			for _, b := range []*big.Rat{t, radd(t, big.NewRat(1, 1))} {
+				if rabs(rsub(vr, b)).Cmp(errV) <= 0 {
+					amb[g.Dst+"|"+g.Denom] = true
+				}
+			}
+		}
 		switch {
+		case whole:
+			x = s
 		// rounding margin: below 0.01 share and (D > 0) also worth less than 0.01 token
 		case diff.Cmp(ratCent) < 0 && (D.Sign() == 0 || rmul(rquo(diff, D), K).Cmp(ratCent) < 0):
 			x = s
@@ -204,6 +230,9 @@ func (st *ShareState) SlashRedelegationsAsImplementedAmb(groups []*redelGroup, f
 			x = s
 		case x.Cmp(s) > 0:
 			x = s
+		}
+		if os.Getenv("VERIF_C07_DEBUG") != "" {
+			fmt.Fprintf(os.Stderr, "C07DEBUG redel-slash %s: balance=%s f=%s t=%s K=%s D=%s s=%s x=%s diff=%s\n", p, g.Balance, rstr(f), rstr(t), rstr(K), rstr(D), rstr(s), rstr(x), rstr(diff))
 		}
 		ns := rsub(s, x)
 		setRR(st.D, g.Dst, g.Denom, rsub(D, x))
